@@ -156,7 +156,18 @@ func (e *Engine) enterBlock(s *State, f *Frame, probe *probeRec) bool {
 		}
 		return false
 	}
-	// loop entry
+	// loop entry: snapshot for atentry(...)
+	if f.entrySnap == nil {
+		f.entrySnap = map[int]*loopSnap{}
+	}
+	snap := &loopSnap{names: make(map[string]nameRef, len(f.names)), heap: make(map[*Object]interface{}, len(s.heap))}
+	for k, v := range f.names {
+		snap.names[k] = v
+	}
+	for k, v := range s.heap {
+		snap.heap[k] = v
+	}
+	f.entrySnap[ord] = snap
 	if probe == nil {
 		for k, cl := range invs {
 			t := e.evalInv(s, f, cl)
@@ -172,6 +183,9 @@ func (e *Engine) enterBlock(s *State, f *Frame, probe *probeRec) bool {
 		for _, cl := range invs {
 			ps.assume(e.evalInv(ps, pf, cl))
 		}
+		for _, cl := range f.contract.LoopUse[ord] {
+			ps.assume(e.evalInv(ps, pf, cl))
+		}
 		rec := &probeRec{depth: len(ps.stack), header: b, pre: map[*Object]bool{}, writes: map[string]VPtr{}}
 		for o := range ps.heap {
 			rec.pre[o] = true
@@ -181,7 +195,10 @@ func (e *Engine) enterBlock(s *State, f *Frame, probe *probeRec) bool {
 		}
 		pf.phisDone = true
 		saved := e.obligs
+		savedProbing := e.probing
+		e.probing = true
 		e.run(ps, rec)
+		e.probing = savedProbing
 		e.obligs = saved
 		if len(rec.writes) == len(writes) {
 			break
@@ -190,6 +207,10 @@ func (e *Engine) enterBlock(s *State, f *Frame, probe *probeRec) bool {
 	}
 	e.havocLoop(s, f, b, nphi, writes)
 	for _, cl := range invs {
+		s.assume(e.evalInv(s, f, cl))
+	}
+	// lemma / axiom instances on the loop state
+	for _, cl := range f.contract.LoopUse[ord] {
 		s.assume(e.evalInv(s, f, cl))
 	}
 	return true
@@ -295,7 +316,7 @@ func (e *Engine) typeAtPath(p VPtr) types.Type {
 }
 
 func (e *Engine) evalInv(s *State, f *Frame, cl Clause) *Term {
-	c := &evalCtx{e: e, s: s, env: copyEnv(f.params), names: f.names, oldHeap: f.entryHeap, oldEnv: f.params, pkg: f.fn.Pkg.Pkg}
+	c := &evalCtx{e: e, s: s, env: copyEnv(f.params), names: f.names, oldHeap: f.entryHeap, oldEnv: f.params, pkg: f.fn.Pkg.Pkg, frame: f}
 	return c.evalBool(cl.Expr)
 }
 
@@ -316,6 +337,10 @@ func (e *Engine) step(s *State, f *Frame, in ssa.Instruction, work *[]*State, pr
 			_ = id
 		}
 		if x.Object() != nil {
+			if prev, ok := f.names[x.Object().Name()]; ok && prev.isAddr && !x.IsAddr {
+				// the variable lives in memory: keep its address (a value DebugRef is only a snapshot)
+				break
+			}
 			if _, isVar := x.Object().(*types.Var); isVar {
 				if v, ok := f.env[x.X]; ok {
 					f.names[x.Object().Name()] = nameRef{v: v, isAddr: x.IsAddr}
@@ -348,6 +373,12 @@ func (e *Engine) step(s *State, f *Frame, in ssa.Instruction, work *[]*State, pr
 	case *ssa.BinOp:
 		f.env[x] = e.binop(s, x.Op, e.val(s, f, x.X), e.val(s, f, x.Y), x.X.Type(), x.Type(), x.Pos())
 	case *ssa.FieldAddr:
+		if pp, isPure := e.val(s, f, x.X).(VPurePtr); isPure {
+			if st, ok := pp.V.(VStruct); ok {
+				f.env[x] = VPurePtr{V: st.F[x.Field]}
+				break
+			}
+		}
 		p, ok := e.val(s, f, x.X).(VPtr)
 		if !ok {
 			panic(execError{fmt.Sprintf("FieldAddr on %T at %s", e.val(s, f, x.X), e.posOf(x.Pos()))})
@@ -459,6 +490,13 @@ func (e *Engine) step(s *State, f *Frame, in ssa.Instruction, work *[]*State, pr
 			e.gotoBlock(f, f.blk.Succs[1])
 			return true
 		}
+		// a loop whose condition stays symbolic needs an invariant: give up early instead of unrolling it
+		if _, isHeader := f.loops.body[f.blk]; isHeader || f.visits[f.blk] > 1 {
+			f.symIters++
+			if f.symIters > 96 {
+				panic(execError{"loop with a symbolic bound in " + f.fn.Name() + " needs an invariant (or its callee a contract)"})
+			}
+		}
 		// symbolic branch: prune a side that the path condition excludes (interval reasoning first,
 		// the solver only when a block is being revisited, i.e. inside an unrolled loop)
 		if ft, ff := e.feasibleSides(s, f, c); !ft {
@@ -531,6 +569,17 @@ func (e *Engine) indexAddr(s *State, f *Frame, x *ssa.IndexAddr, probe *probeRec
 	base := e.val(s, f, x.X)
 	idx := asInt(e.val(s, f, x.Index))
 	switch b := base.(type) {
+	case VPurePtr: // address inside a value-semantics container: loads only
+		if arr, ok := b.V.(VArr); ok {
+			e.boundsCheck(s, idx, Int64C(int64(len(arr.E))), x.Pos(), probe)
+			sq := &Seq{Conc: arr.E}
+			v, ok := sq.at(idx)
+			if !ok {
+				panic(pathEnd{"index out of range"})
+			}
+			return VPurePtr{V: v}
+		}
+		panic(execError{"IndexAddr through a read-only element address"})
 	case VPtr: // pointer to array
 		if b.Obj == nil {
 			panic(pathEnd{"nil array pointer"})
@@ -735,8 +784,10 @@ func (e *Engine) binop(s *State, op token.Token, l, r Value, lt types.Type, rt t
 	case token.GEQ:
 		return VBool{Le(b, a)}
 	case token.SHL:
+		e.shiftCount(s, b, pos)
 		return wrap(Mul(a, appSimplify("pow2", SInt, []*Term{b})))
 	case token.SHR:
+		e.shiftCount(s, b, pos)
 		return VInt{Div(a, appSimplify("pow2", SInt, []*Term{b}))}
 	case token.AND:
 		if a.IsConst() && b.IsConst() && a.Val.Sign() >= 0 && b.Val.Sign() >= 0 {
@@ -778,7 +829,22 @@ func (e *Engine) assumeOrCheckPositive(s *State, b *Term, pos token.Pos) {
 	e.note("symbolic signed division: divisor assumed positive at " + e.posOf(pos))
 }
 
+// wrapUnsigned applies the modular wrap of an unsigned machine operation.  When interval reasoning
+// over the path condition shows that the exact result already fits, the wrap is dropped and a
+// `nowrap` obligation (0 <= t < 2^n) is emitted for the solver to confirm.
 func (e *Engine) wrapUnsigned(s *State, t *Term, n uint) *Term {
+	if e.curFn != nil && !e.inInit && len(s.stack) > 0 {
+		bc := &boundCalc{atoms: atomBounds(s.pc), memo: map[*Term]*ival{}}
+		iv := bc.of(t)
+		if iv.lo != nil && iv.hi != nil && iv.lo.Sign() >= 0 && iv.hi.Cmp(bigPow2(n)) < 0 {
+			if !e.probing {
+				e.emit(s, "nowrap", "", And(Le(Int64C(0), t), Lt(t, IntC(bigPow2(n)))), token.NoPos, fmt.Sprintf("unsigned %d-bit operation does not wrap", n))
+			} else {
+				s.assume(And(Le(Int64C(0), t), Lt(t, IntC(bigPow2(n)))))
+			}
+			return t
+		}
+	}
 	return Mod(t, IntC(bigPow2(n)))
 }
 
@@ -808,6 +874,16 @@ func (e *Engine) convert(s *State, v Value, from, to types.Type, pos token.Pos) 
 		panic(execError{"unsupported conversion to " + to.String()})
 	}
 	switch x := v.(type) {
+	case VSymFloat:
+		if tb.Info()&types.IsFloat != 0 {
+			return x
+		}
+		if tb.Info()&types.IsInteger != 0 {
+			if u, n := isUnsigned(to); u {
+				return VInt{Mod(x.T, IntC(bigPow2(n)))}
+			}
+			return VInt{x.T}
+		}
 	case VFloat:
 		if tb.Info()&types.IsFloat != 0 {
 			return x
@@ -826,7 +902,9 @@ func (e *Engine) convert(s *State, v Value, from, to types.Type, pos token.Pos) 
 				f, _ := new(big.Float).SetInt(x.T.Val).Float64()
 				return VFloat{f}
 			}
-			panic(execError{"symbolic int→float conversion at " + e.posOf(pos)})
+			// an integer-valued float (exact while |value| < 2^53)
+			e.note("symbolic int→float64 conversion treated as exact (integer-valued float, |value| < 2^53)")
+			return VSymFloat{x.T}
 		}
 		if tb.Info()&types.IsString != 0 {
 			panic(execError{"int→string conversion unsupported"})
@@ -1074,6 +1152,9 @@ func valuesIdentical(a, b Value) bool {
 	return false
 }
 
+// VSymFloat: a float64 known to hold the integer T exactly.
+type VSymFloat struct{ T *Term }
+
 type rangeIter struct {
 	kind string // "map"
 	keys []Value
@@ -1222,4 +1303,22 @@ func (e *Engine) quickSat(hyps []*Term) bool {
 	os.WriteFile(file, []byte(RenderVC(hyps, nil, false)), 0o644)
 	r := solveRace(file, 3, []string{"z3-new", "cvc5"})
 	return r.status != "unsat"
+}
+
+// shiftCount: Go panics on a negative shift count; counts above 256 are outside the pow2 table.
+func (e *Engine) shiftCount(s *State, b *Term, pos token.Pos) {
+	cond := And(Le(Int64C(0), b), Le(b, Int64C(256)))
+	if cond.IsTrue() {
+		return
+	}
+	if cond.IsFalse() {
+		panic(pathEnd{"shift count out of range at " + e.posOf(pos)})
+	}
+	if e.mode == COMPLETE || (e.curC != nil && e.curC.Flags["nopanic"]) {
+		if !e.inInit {
+			e.emit(s, "shift", "", cond, pos, "shift count in [0,256]")
+			return
+		}
+	}
+	s.assume(cond)
 }
